@@ -11,10 +11,10 @@ use xml_dom::{
 
 pub const START_DOCS: &[&str] = &[
     "<r><a id=\"1\">x<b/>y</a><c k=\"v\"><!--m--><d/></c><?p q?>t</r>",
-    "<r id=\"r\"><a id=\"1\" k=\"x\">t</a><b id=\"2\" k=\"y\"><c k=\"z\"/></b></r>",
+    "<r id=\"r\"><a id=\"1\" k=\"x\">t</a><b id=\"2\" k=\"y\"><c k=\"z\">&#65;</c></b></r>",
     "<!DOCTYPE r [<!ENTITY e \"ee\"><!ENTITY m \"<i>x</i>\"><!ATTLIST a d CDATA \"dv\">]><r>t1<a n=\"1\">&e;<![CDATA[cd]]></a><b><c><d>deep</d>&m;</c></b></r>",
     "<r xmlns=\"urn:d\" xmlns:p=\"urn:1\"><g><p:a p:k=\"1\" k=\"2\">\u{e9}\u{1F600}</p:a><b>one</b></g>two<s xmlns:p=\"urn:2\" w=\"1\" xmlns=\"\"><p:c/><d>three</d></s></r>",
-    "<?x y?><!DOCTYPE r><r><!--c1--><a>a-b-c</a><b>]]</b><c>1</c></r><!--end-->",
+    "<?x y?><!DOCTYPE r><r><!--c1--><a>a-b-c</a><b>]]</b><c>&#169;</c><e>t&#233;</e></r><!--end-->",
     "<r><!--a-b-c--><![CDATA[]]x>]]><t>]]x></t><u q=\"x'\" w=\"]]>\">-</u><!---x--></r>",
 ];
 
@@ -42,6 +42,8 @@ pub struct HistCfg {
     pub max_doc: usize,
     /// weight of two-call steps: create a node and attach it at once (builds subtrees and multi-piece values)
     pub w_compound: u32,
+    /// replacements whose argument meets ']' / '>' on either side of the replaced range, even with safe strings
+    pub seams: bool,
 }
 
 fn pick_str(g: &mut Genes, pool: &[&str]) -> String {
@@ -75,7 +77,33 @@ pub fn gen_history(g: &mut Genes, cfg: &HistCfg) -> Json {
             let d = g.raw();
             let rp = g.raw();
             let newest = json!([65535, "recent"]);
-            match g.weighted(&[3, 6, 2, 1, 2, 1]) {
+            match g.weighted(&[3, 6, 2, 1, 2, 1, if cfg.safe_strings && !cfg.seams { 0 } else { 1 }]) {
+                6 => {
+                    // a replacement whose argument is harmless by itself but spells ']]>' (or is fine) together with the
+                    // characters that stay on either side of the replaced range
+                    const SEAMS: &[(&str, &str, &str)] = &[
+                        ("a]]", ">", ""), ("a]", "]>", "b"), ("", "]]", ">b"), ("x]]", "", ">y"), ("\u{1F600}]]", ">", "z"), ("]", "]", ">"), ("q]", "]", "]>"), ("a]]", "x", ">"), ("ab", ">", "cd"), ("]]", "&gt;", ""),
+                    ];
+                    let (head, arg, tail) = SEAMS[g.pick(SEAMS.len())];
+                    let mid = ["z", "zz", "\u{e9}\u{1F600}", "]"][g.pick(4)];
+                    let whole = format!("{}{}{}", head, mid, tail);
+                    let create = if g.chance(1, 3) { "create_cdata" } else { "create_text" };
+                    ops.push(json!({"op": create, "d": d, "s": whole}));
+                    if g.chance(3, 4) {
+                        ops.push(json!({"op": "append", "p": [rp, "element"], "c": newest.clone()}));
+                    }
+                    let off = head.chars().count();
+                    let cnt = mid.chars().count();
+                    match g.weighted(&[5, 1, 1]) {
+                        0 => ops.push(json!({"op": "replace_data", "n": newest, "off": off, "cnt": cnt, "s": arg})),
+                        1 => ops.push(json!({"op": "replace_data", "n": newest, "off": off, "cnt": cnt + tail.chars().count() + g.pick(3), "s": arg})),
+                        _ => ops.push(json!({"op": "insert_data", "n": newest, "off": off, "s": arg})),
+                    }
+                    // and a read / another edit on the same node afterwards
+                    if g.chance(1, 2) {
+                        ops.push(follow_up_edit(g, data));
+                    }
+                }
                 5 => {
                     // take something out of a document and put a document-level node (back) in
                     let docspec = json!([rp, "document"]);
